@@ -298,8 +298,12 @@ struct Drv
         OPN2_Bank bk; memset(&bk, 0, sizeof(bk)); int rc = -1;
         API("opn2_getBank", rc = opn2_getBank(dev, &id, OPNMIDI_Bank_Create, &bk));
         if(rc != 0) return false;
+        // half of the banks leave their blank entries as the bank API created them (a new bank reads as 128 blank instruments)
+        const bool leave_blank_entries = (b.e[0].uid + b.num) % 2 == 0;
+        if(leave_blank_entries) count("api_banks_with_untouched_blank_entries");
         for(int i = 0; i < 128; i++)
         {
+            if(leave_blank_entries && b.e[i].blank) continue;
             OPN2_Instrument in; memset(&in, 0, sizeof(in)); in.version = 0;
             fill_common(in, b.e[i].uid, b.e[i].blank, b.e[i].dk, (uint8_t)OPNMIDI_Ins_IsBlank);
             API("opn2_setInstrument", rc = opn2_setInstrument(dev, &bk, (unsigned)i, &in));
@@ -580,9 +584,11 @@ static void stage_multidev(Case &c)
     std::vector<int> msbs, lsbs, progs, keys;
     for(std::map<unsigned, MBank>::iterator i = d.M.mel.begin(); i != d.M.mel.end(); ++i) { msbs.push_back((int)(i->first >> 8)); lsbs.push_back((int)(i->first & 127)); }
     msbs.push_back(0); msbs.push_back(r.below(128)); lsbs.push_back(0); lsbs.push_back(r.below(128));
+    if(r.chance(0.6)) { msbs.push_back(127); msbs.push_back(126); }     // channels become XG drum channels in mid-song
     for(std::map<unsigned, MBank>::iterator i = d.M.perc.begin(); i != d.M.perc.end(); ++i) progs.push_back((int)(i->first & 127));
     for(int i = 0; i < 4; i++) progs.push_back((int)r.below(128));
-    progs.push_back(0);
+    progs.push_back(0); progs.push_back(127);        // first and last entry of a bank
+    keys.push_back(r.chance(0.5) ? 127 : 0);
     for(int i = 0; i < 5; i++) keys.push_back(r.range(0, 127));
     keys.push_back(r.range(35, 81));
 
@@ -638,6 +644,21 @@ static void stage_multidev(Case &c)
     std::vector<std::vector<ChanModel> > devstate((size_t)ndev, std::vector<ChanModel>(16));
     size_t next = 0; double delay = 0; long guard = 0; bool lost = false;
     std::set<int> devs_with_drum_notes;
+    // second pass: the song is rewound and played again; it has to resolve like the first time (every channel starts from its
+    // defaults again: programs, banks and the roles that mid-song bank selects gave the channels)
+    const int passes = r.chance(0.5) ? 2 : 1;
+    for(int pass = 0; pass < passes && !lost && g_w.violations_in_case < 6; pass++)
+    {
+    if(pass)
+    {
+        if(next != ops.size()) break;
+        API("opn2_positionRewind", opn2_positionRewind(dev));
+        devstate.assign((size_t)ndev, std::vector<ChanModel>(16));
+        next = 0; delay = 0; guard = 0;
+        d.M.mode = (int)P(dev)->m_synthMode;
+        if(d.M.mode != MODE_GM && d.M.mode != MODE_GS && d.M.mode != MODE_XG) { lost = true; break; }
+        count("multidev_second_passes");
+    }
     while(guard++ < 5000 && !lost && g_w.violations_in_case < 6)
     {
         hook.seen.clear(); d.tap.log.clear();
@@ -657,7 +678,7 @@ static void stage_multidev(Case &c)
             const int dv = dev_of_track[(size_t)o.track];
             if(o.kind == 4) continue;
             for(int ch = 0; ch < 16; ch++) d.M.ch[ch] = devstate[(size_t)dv][(size_t)ch];
-            std::string route = vfmt("[file, track %d, device %d of %d] ", o.track, dv + 1, ndev);
+            std::string route = vfmt("[file, %s, track %d, device %d of %d] ", pass ? "second pass after rewind" : "first pass", o.track, dv + 1, ndev);
             d.route = route.c_str();
             if(o.kind == 0) d.ev_cc(o.ch, o.a, o.b);
             else if(o.kind == 1) d.ev_prog(o.ch, o.a);
@@ -676,6 +697,7 @@ static void stage_multidev(Case &c)
         }
         int end = 0; API("opn2_atEnd", end = opn2_atEnd(dev));
         if(end) break;
+    }
     }
     if(lost) { c.inconclusive = true; count("multidev_delivery_not_as_in_the_file"); }
     else if(next != ops.size() && g_w.violations_in_case == 0) { c.inconclusive = true; count("multidev_song_not_played_to_its_end"); }
@@ -712,7 +734,8 @@ static void run_case(Case &c)
     msbs.push_back(0); msbs.push_back(126); msbs.push_back(127); msbs.push_back(r.below(128)); lsbs.push_back(0); lsbs.push_back(r.below(128)); lsbs.push_back(1);
     for(std::map<unsigned, MBank>::iterator i = d.M.perc.begin(); i != d.M.perc.end(); ++i) progs.push_back((int)(i->first & 127));
     for(int i = 0; i < 4; i++) progs.push_back((int)r.below(128));
-    progs.push_back(0);
+    progs.push_back(0); progs.push_back(127);        // first and last entry of a bank
+    keys.push_back(r.chance(0.5) ? 127 : 0);
     for(int i = 0; i < 5; i++) keys.push_back(r.range(0, 127));
     keys.push_back(r.range(35, 81));
     chans.push_back(9); chans.push_back((int)r.below(16)); chans.push_back((int)r.below(16)); chans.push_back((int)r.below(9)); chans.push_back(10 + (int)r.below(6));
